@@ -68,6 +68,10 @@ impl<T: Elem> Case for MCase<T> {
         }
         h
     }
+    fn calls(&self) -> u64 {
+        // per pair: add(a,0), mul(a,1), add, sub, mul, div, cmp_eq, cmp_min, cmp_max, sqrt(a), sqrt(b)
+        4 + self.pairs.len() as u64 * 11
+    }
     fn shrink(&self) -> Vec<Self> {
         let mut out = Vec::new();
         let n = self.pairs.len();
